@@ -94,6 +94,7 @@ func NewGMPWorld(t *testing.T) *GMPWorld {
 		t.Fatalf("no validators: %v", err)
 	}
 	w.val, _ = sdk.ValAddressFromBech32(vals[0].GetOperator())
+	zeroInflation(w.B)
 	// working balance for every account a schedule may act for (address as the keeper computes it)
 	var fund []sdk.Msg
 	seen := map[string]bool{}
@@ -298,10 +299,7 @@ func (w *GMPWorld) State() GMPState {
 		}
 		st.Bal[name] = b.Int64()
 		if name != "dest" {
-			st.Del[name] = 0
-			if d, err := app.StakingKeeper.GetDelegation(ctx, a, w.val); err == nil {
-				st.Del[name] = d.Shares.TruncateInt64()
-			}
+			st.Del[name] = delegated(w.B, a, w.val)
 		}
 	}
 	for _, cl := range gmpClients {
